@@ -67,6 +67,9 @@ def check(ck):
     with ck.rule("R3"):
         _clauses(ck, repo)
         interface_field_type_table(ck, repo, side="refuse")
+        # ... whose last clause asks the interface for its possible types: answered for the type as given, from the complete set
+        from .c03 import possible_type_sets
+        possible_type_sets(ck, repo)
     with ck.rule("R4"):
         _redefinitions(ck, repo)
 
@@ -238,6 +241,26 @@ def _clauses(ck, repo):
         cs = cv.calls(callee)
         ck.ob(f"{caller} applies {callee} to every candidate", bool(cs) and all(cv.enclosing_loops(c) for c in cs), sc.methods[caller], cs[0] if cs else sc.methods[caller].node,
               construct=f"glue:{caller}:{callee}")
+    # a validator judges *every* candidate only if it walks a complete registry: the tables every definition is entered into when
+    # it is registered (and `_input_types`, whose writers are checked above) - not an index derived at registration time, which
+    # misses what extensions add later (`extend type X implements I` fills interfaces_names after X was registered)
+    from ..q import inlined_view
+    COMPLETE = {"type_definitions", "_directive_definitions", "extensions", "_schema_directives", "_input_types"}
+    n_src = 0
+    for mname, m in sorted(sc.methods.items()):
+        if not mname.startswith("_validate") or m.positional_params != ["self"]:
+            continue
+        mv = inlined_view(repo, m)
+        for x in ast.walk(mv.node):
+            if isinstance(x, (ast.For, ast.comprehension)):
+                t = unparse(x.iter)
+                if not t.startswith("self."):
+                    continue
+                attr = t[len("self."):].split(".")[0].split("(")[0].split("[")[0]
+                n_src += 1
+                ck.ob(f"{mname} walks a complete registry (`{t}`)", attr in COMPLETE, m, x.iter, construct=f"glue:registry:{mname}:{attr}",
+                      detail="an index filled when a definition is registered does not see what `extend ...` adds afterwards")
+    ck.count("validator_registry_walks", n_src, 15)
     f = sc.methods["_validate_field_follow_interface"]
     c = FuncView(f).maybe_call("_validated_field_args_are_same_as_interface_args")
     ck.ob("_validate_field_follow_interface checks the arguments of every field it found", c is not None and unparse(c.args[-1]) == "errors", f, c or f.node, construct="glue:field-args")
